@@ -29,7 +29,7 @@ Definition get_mark (e : err) : emark :=
 
 (* reflect.TypeOf(x).Comparable() *)
 Definition comparable (e : err) : bool :=
-  match e with Leaf _ (LUser ULNoCmp _ _ _) => false | _ => true end.
+  match e with Leaf _ (LUser ULNoCmp _ _ _) | Wrap _ (WUser UWNoCmp _ _) _ => false | _ => true end.
 
 Definition same_go_type (a b : err) : bool :=
   str_eqb (go_full_name a) (go_full_name b).
@@ -47,6 +47,7 @@ Definition go_eq (c r : err) : bool :=
   | Leaf _ (LErrno _), _ | _, Leaf _ (LErrno _) => false
   | Leaf _ (LUser ULVal _ _ _), _ | _, Leaf _ (LUser ULVal _ _ _) => false
   | Leaf _ (LUser ULNoCmp _ _ _), _ | _, Leaf _ (LUser ULNoCmp _ _ _) => false
+  | Wrap _ (WUser UWNoCmp _ _) _, _ | _, Wrap _ (WUser UWNoCmp _ _) _ => false
   | _, _ => Pos.eqb (node_oid c) (node_oid r) && same_go_type c r
   end.
 
